@@ -25,7 +25,8 @@ ASSUMPTIONS = [
 ]
 EXPLANATION = ("theorems: TST order (irreflexive, antisymmetric, total, agrees with real time below 2^31) for all pairs; stored PV is "
                "the newest of any history in a 2^31 window; expiry in real time incl. senders ahead of the clock; neighbour flag "
-               "set by beacon/SHB and kept until expiry whatever multi-hop packets follow, never set by multi-hop packets; "
+               "set by beacon/SHB and kept until expiry whatever multi-hop packets follow, never set by multi-hop packets, an expired "
+               "entry is not re-used by the next packet of its station; "
                "own address never entered for any frame. Correspondence of full histories (state after every event)")
 
 M32 = 2 ** 32
@@ -319,11 +320,14 @@ def stale_entry_reuse(ctx, n):
 
 
 def run(ctx):
-    ctx.rule = ("timestamp pairs on a boundary grid (2^k +- 2, wrap) plus seeded pairs; seeded single-station histories "
-                "(beacon/SHB/TSB/GBC/GAC/GUC/LS from 2-4 sources, duplicates, own-address packets, clock ticks 1 ms .. 45 s, "
-                "lifetimes 1-20 s, a quarter of them across the 2^32 ms wrap); after every event the table of the real "
-                "Router is checked against the property clauses and compared with the model; non-trivial = a valid fresh "
-                "packet was processed; distinct by (kind, source, sn, tst, now)")
+    ctx.rule = ("timestamp pairs on a boundary grid (2^k +- 2, wrap) plus seeded pairs, every comparison operator; seeded "
+                "single-station histories (beacon/SHB/TSB/GBC/GAC/GUC/LS from 2-4 sources with speed, heading, flags, station type "
+                "and M bit varied, duplicates, packets re-using the previous timestamp with another position, own-address packets of "
+                "every type incl. the own MID under another station type, clock ticks 1 ms .. 45 s, lifetimes 1-20 s, LS "
+                "retransmission limits 0-10, a quarter of them across the 2^32 ms wrap); expiry boundaries (entry made by each packet "
+                "type, probes at age lifetime - 1 / lifetime / lifetime + 1 ms); silence longer than the lifetime followed by a packet "
+                "of the same station; after every event the table of the real Router is checked against the property clauses and "
+                "compared with the model; non-trivial = a valid fresh packet was processed; distinct by (kind, source, sn, tst, now)")
     rs.stack.patch_time()
     check_order(ctx, 2000 if ctx.tier == "quick" else 50000)
     if ctx.tier == "quick":
